@@ -57,6 +57,8 @@ type Production struct {
 	InitBytes []byte
 	Log       [][]SampleRec // per track index
 	Segs      []*SegRec
+	// SwallowedWriteError is set when a segment's Encode returned nil although its writer refused a write (WriteFaults)
+	SwallowedWriteError string
 }
 
 // PackOpts bounds the packager.
@@ -72,6 +74,7 @@ type PackOpts struct {
 	NoEmptyTrack    bool
 	AudioOnly       bool
 	BigSamples      bool
+	WriteFaults     bool // some segments are also written to a sink that refuses one write
 	EmsgOnly        bool // with Foreign off: emsg boxes may still precede a moof
 	LargeMdat       bool // some fragments write their mdat with the 64-bit size form (MdatBox.LargeSize)
 	HugeDurs        bool // a few sample durations around 2^31 / 2^32-1 (legal; sums inside one trun pass 2^32)
@@ -182,6 +185,14 @@ func foreignBox(t *sim.Tape, rnd *sim.Rand, where string) (mp4.Box, string) {
 		_ = u.SetUUID("0123456789abcdef0123456789abcdef")
 		return u, "uuid:unknown"
 	}
+}
+
+func fragModes(sr *SegRec) []string {
+	var m []string
+	for _, f := range sr.Frags {
+		m = append(m, f.Mode)
+	}
+	return m
 }
 
 func makeEmsg(t *sim.Tape) *mp4.EmsgBox {
@@ -522,6 +533,18 @@ func Package(r *sim.Run, o PackOpts) (*Production, error) {
 		}
 		sr.Bytes = out.Bytes()
 		sr.Seg = seg
+		if o.WriteFaults && !anyMeta && t.Chance(150) {
+			// the same segment written once more to an origin that refuses one write (and accepts the later ones):
+			// the packager must hear about it, or it will publish a segment with bytes missing
+			probe := sim.NewSink(nil)
+			if seg.Encode(probe) == nil && probe.Writes > 0 {
+				fs := sim.NewSink(r)
+				fs.FailAtOp = 1 + t.Draw(probe.Writes)
+				if err := seg.Encode(fs); err == nil && fs.Failed && p.SwallowedWriteError == "" {
+					p.SwallowedWriteError = fmt.Sprintf("segment %d (fragments %v): Encode reported success although write #%d of %d was refused (%d of %d bytes arrived)", si, fragModes(sr), fs.FailAtOp, probe.Writes, len(fs.Buf), len(probe.Buf))
+				}
+			}
+		}
 		p.Segs = append(p.Segs, sr)
 		r.Event("segment", btoi(sr.HasStyp), btoi(sr.Optimize), btoi(sr.ViaSW), len(sr.Frags))
 		r.Logf("packager: seg %d emitted %d bytes styp=%v optimize=%v viaSW=%v separatePayload=%v", si, len(sr.Bytes), sr.HasStyp, sr.Optimize, sr.ViaSW, anyMeta)
